@@ -171,6 +171,8 @@ func c14Items(tag int) []c14Item {
 		{"user-tail03-unaligned", "packet", append([]byte{TUser}, []byte(fmt.Sprintf("seq-update:%06d:node-7:\x00\x00\x00\x03", tag))...), false, 1},
 		{"user-tail03-badpad", "packet", append([]byte{TUser}, []byte(fmt.Sprintf("aligned:%06d:0123456789abcdef0123456789abc\x00\x00\x03", tag))...), false, 1},
 		{"stream-user-tail03", "stream", BuildUserStream([]byte(fmt.Sprintf("reliable-%06d-unaligned-tail\x00\x00\x03", tag))), false, 1},
+		// block-aligned plaintext ending in a run of 48 bytes of value 48 ('0'): longer than any PKCS#7 pad
+		{"user-tail48x0x30", "packet", append([]byte{TUser}, []byte(fmt.Sprintf("iv-%06d:total", tag)+strings.Repeat("0", 48))...), false, 1},
 		{"stream-pushpull", "stream", BuildPushPull(false, []WPushNodeState{{Name: "x", Addr: x, Port: 7946, Incarnation: 1, State: SAlive, Vsn: DefaultVsn()}}, []byte(fmt.Sprintf("state-%06d", tag))), false, 1},
 	}
 }
@@ -356,6 +358,11 @@ func runC14(run *Run, seed int64, cfg hostCfg, items []int, id string, full bool
 			judge(it, "cleartext", "", BuildPacket(PacketCfg{Label: cfg.Label, CRC: it.CRC}, it.Plain, rng), want)
 			// sealed with another label as associated data but carrying ours
 			judge(it, "foreign-aad", "", append(LabelHeader(cfg.Label), Seal(cfg.EncVsn, v.k1, it.Plain, []byte(cfg.Label+"z"), rng)...), want)
+			if len(cfg.Label) > 0 {
+				// ... and with a label of the same length that differs in its last byte only
+				near := cfg.Label[:len(cfg.Label)-1] + string(cfg.Label[len(cfg.Label)-1]^1)
+				judge(it, "foreign-aad", "last label byte differs", append(LabelHeader(cfg.Label), Seal(cfg.EncVsn, v.k1, it.Plain, []byte(near), rng)...), want)
+			}
 			if cfg.Label != "" {
 				hdr := LabelHeader(cfg.Label)
 				if cfg.Skip {
@@ -371,6 +378,10 @@ func runC14(run *Run, seed int64, cfg hostCfg, items []int, id string, full bool
 			judge(it, "foreign-key", "k3", append(LabelHeader(cfg.Label), BuildStreamMsg(StreamCfg{Label: cfg.Label, Key: k3, EncVsn: cfg.EncVsn}, it.Plain, rng)...), want)
 			judge(it, "cleartext", "", append(LabelHeader(cfg.Label), it.Plain...), want)
 			judge(it, "foreign-aad", "", append(LabelHeader(cfg.Label), BuildStreamMsg(StreamCfg{Label: cfg.Label + "z", Key: v.k1, EncVsn: cfg.EncVsn}, it.Plain, rng)...), want)
+			if len(cfg.Label) > 0 {
+				near := cfg.Label[:len(cfg.Label)-1] + string(cfg.Label[len(cfg.Label)-1]^1)
+				judge(it, "foreign-aad", "last label byte differs", append(LabelHeader(cfg.Label), BuildStreamMsg(StreamCfg{Label: near, Key: v.k1, EncVsn: cfg.EncVsn}, it.Plain, rng)...), want)
+			}
 		}
 	}
 	// 6. a key removed from the ring no longer opens anything (also while rotation calls run concurrently)
@@ -415,7 +426,7 @@ func TestC14(t *testing.T) {
 		"A real node with keyring {K1 primary, K2}, GossipVerifyIncoming on, label none/short, encryption v1 and v0, every ticker disabled (so every emitted byte is a reaction). Genuine transmissions built by the oracle-side codec (ping with/without checksum header, user messages whose plaintext is a multiple of 16 and ends in PKCS#7-looking tails, a user message under K2, alive, suspect, compound; stream user message, stream ping, push/pull). For each: every single bit of the whole transmission flipped (label header, version byte, nonce, body, tag; stream frame type and length prefix), every truncation, splices with another genuine ciphertext at 16-byte boundaries, replay under other / extended / no / doubled label, sealed under a foreign key, sealed with a different label as associated data, sent in clear; plus traffic under a key that RemoveKey removed while AddKey/RemoveKey calls run concurrently. Effect = digest diff + every delegate call with its argument + every packet the node emits in the next 1.5 s + decoded stream reply. Oracle: effect(variant) is empty (a rejected stream may get the generic error reply) or equals the effect the genuine plaintext has in the same state. Cell = (path, item, modified region, enc version, label).")
 	defer run.Finish()
 	run.Assume("the genuine transmission's own effect is measured on the same victim immediately before the variants (positive control); membership claims are idempotent so the reference effect is re-measured after the first application")
-	cfgs := []hostCfg{{"", 1, true, false, false}, {"c14", 1, true, false, false}, {"c14", 0, true, false, false}, {"", 0, true, false, false}, {"c14", 1, true, false, true}}
+	cfgs := []hostCfg{{"", 1, true, false, false}, {"c14", 1, true, false, false}, {"c14", 0, true, false, false}, {"", 0, true, false, false}, {"c14", 1, true, false, true}, {strings.Repeat("q", 255), 1, true, false, false}}
 	k := 0
 	for rep := 0; rep < run.Pick(1, 80); rep++ {
 		for ci, cfg := range cfgs {
